@@ -168,6 +168,23 @@ impl<T: BasicDataCustom, Companion: BasicDataCompanion<T>> BasicGarnishData<T, C
         self.list_assocs(addr)[k]
     }
 
+    /// a list under construction at `li` (between start_list and end_list): header UninitializedList(len, count),
+    /// `count` item cells written, the association area holds an association or nothing per position, nothing beyond `count`
+    pub open spec fn building_wf(&self, li: usize) -> bool {
+        let v = self.data_view();
+        li < v.len() && (match v[li as int] {
+            BasicData::UninitializedList(len, count) => {
+                &&& count <= len && li + 1 + 2 * len <= v.len()
+                &&& forall|k: int| 0 <= k < count ==> (#[trigger] v[li + 1 + k]) is ListItem
+                &&& forall|k: int| 0 <= k < len ==> ((#[trigger] v[li + 1 + len + k]) is Empty || v[li + 1 + len + k] is AssociativeItem)
+                &&& forall|k: int| count <= k < len ==> (#[trigger] v[li + 1 + len + k]) is Empty
+            },
+            _ => false,
+        })
+    }
+    pub open spec fn building_len(&self, li: usize) -> usize { match self.data_view()[li as int] { BasicData::UninitializedList(len, _) => len, _ => 0 } }
+    pub open spec fn building_count(&self, li: usize) -> usize { match self.data_view()[li as int] { BasicData::UninitializedList(_, c) => c, _ => 0 } }
+
     /// the three stacks threaded through the data table are well formed
     pub open spec fn stacks_ok(&self) -> bool {
         reg_ok(self.data_view(), self.current_register) && val_ok(self.data_view(), self.current_value) && frame_ok(self.data_view(), self.current_frame)
